@@ -80,7 +80,12 @@ class HTTPConnection(Mapping[str, Any], MoreInfoFromHeaderMixin):
         """
         The full URL of this request.
         """
-        return URL(scope=self._scope)
+        try:
+            url = URL(scope=self._scope)
+            url.port  # an invalid port in the Host header shows up here
+        except ValueError:
+            raise HTTPException(400, content="Invalid Host header") from None
+        return url
 
     @cached_property
     def path_params(self) -> Dict[str, Any]:
